@@ -71,6 +71,12 @@ FIXED_ZERO_STRETCH = [
     ("bump", {"a": 0.0, "b": 1.0, "x0": 0.3, "s": 0.15}),
     ("bump", {"a": -1.0, "b": 1.0, "x0": -0.5, "s": 0.25}),
 ]
+FIXED_NARROW_PEAK = [       # (family, params, tolerances, loops): > 20 bisections, < 21 doublings of the local average
+    ("nlorentz", {"a": 0.0, "b": 1.0, "x0": 0.41, "g": 1e-7}, (1e-3, 1e-6), 110),
+    ("nlorentz", {"a": 0.0, "b": 1.0, "x0": 0.83, "g": 1e-8}, (1e-3,), 110),
+    ("nlorentz", {"a": 0.0, "b": 1.0, "x0": 0.83, "g": 1e-6}, (1e-6,), 110),
+    ("nlorentz", {"a": 0.0, "b": 2.0, "x0": 0.23, "g": 2e-9}, (1e-4,), 110),
+]
 RUN_TIMEOUT = 10.0   # seconds per run of the learner (a run that does not return is counted, not judged)
 
 
@@ -184,11 +190,11 @@ def task_reference(t):
     I.modules()
     mem = I.build(family, params)
     try:
-        ref, rst = _with_deadline(lambda: I.reference_trajectory(mem, tol, loops), 25.0)
+        ref, rst = _with_deadline(lambda: I.reference_trajectory(mem, tol, loops), 25.0 + loops)
         if not ref:
             return {"status": "empty"}
         nref = ref[-1][0]
-        traj, lst, _L = _with_deadline(lambda: I.learner_trajectory(mem, tol, nref, 4 * nref + 100), 25.0)
+        traj, lst, _L = _with_deadline(lambda: I.learner_trajectory(mem, tol, nref, 4 * nref + 100), 25.0 + loops)
         zero_refined = I.zero_refined_intervals(_L)
     except RunTimeout:
         return {"status": "timeout"}
@@ -690,6 +696,10 @@ def run(chk: Check) -> int:
         for tol in (1e-3, 1e-5, 1e-7):
             pre_t.append((fam, params, tol, max(loops, 40)))
             pre_m.append((fam, params, tol))
+    for fam, params, tols, lps in FIXED_NARROW_PEAK:
+        for tol in tols:
+            pre_t.append((fam, params, tol, lps))
+            pre_m.append((fam, params, tol))
     rtasks, rmetas = pre_t + rtasks, pre_m + rmetas
     with cf.ProcessPoolExecutor(max_workers=14, mp_context=ctx) as ex:
         rres = list(ex.map(task_reference, rtasks, chunksize=2))
@@ -824,7 +834,7 @@ def run(chk: Check) -> int:
     chk.extra["wall_parts_s"] = round(time.time() - t_start, 1)
     return chk.finish(
         level="proof",
-        rule="members of 18 integrand families (four of them exactly 0.0 on a stretch of the range) with closed-form integrals (random parameters and ranges, tol 1e-10..1e-3) driven on "
+        rule="members of 19 integrand families (four of them exactly 0.0 on a stretch of the range, one a Lorentzian 1e-5..1e-9 of the range wide) with closed-form integrals (random parameters and ranges, tol 1e-10..1e-3) driven on "
              "the real IntegratorLearner with three delivery schedules (ask 1/tell 1; ask k/tell all in order; ask <= 50, tell a "
              "random part in random order with the rest in flight); non-trivial = done() reached with more than one approximating "
              "interval (at least one split) or a non-finite function value was met; distinct by (family, parameters, tol, schedule); "
